@@ -52,7 +52,7 @@ def run(F, ctx):
             eff |= common.origins(f, op_local(p.args[0]))
         eff_d = f.derive(eff, through_calls=False)
         ok = ok and all(op_local(c.args[2]) in eff_d for c in dd)
-        tl = f.local_named("time")
+        tl = f.need_local("time")
         ok = ok and all(op_local(c.args[3]) in f.derive({tl}, through_calls=False) for c in dd)
         none_t = option_none_targets(f, "incremental")
         for (bb, t) in none_t:
@@ -81,7 +81,7 @@ def run(F, ctx):
         for p in pushg:
             eff |= common.origins(g, op_local(p.args[0]))
         ok = ok and all(op_local(c.args[2]) in g.derive(eff, through_calls=False) for c in ddg)
-        tl = g.local_named("time")
+        tl = g.need_local("time")
         ok = ok and all(op_local(c.args[3]) in g.derive({tl}, through_calls=False) for c in ddg)
         none_t = option_none_targets(g, "incremental")
         for (bb, t) in none_t:
@@ -170,7 +170,7 @@ def run(F, ctx):
             mwl |= w.derive({c.dst["l"]}, through_calls=False) | {c.dst["l"]}
         fm = [c for c in w.normal_calls() if re.search(r"::fetch_max$", c.static_args or c.static or "") and (op_local(c.args[0]) in mwl or c in common.calls_on_field(w, "max_write_time"))]
         sd = [c for c in w.normal_calls() if re.search(r"Sender::<.*>::send$", c.static_args or "")]
-        tl = w.local_named("time")
+        tl = w.need_local("time")
         ok = dur.ordered_dom(w, fm, sd) and all(op_local(c.args[1]) in w.derive({tl}, through_calls=False) for c in fm)
         ctx.site("IncrementalEngine::%s raises max_write_time before sending" % nm, w.where(), ok=ok)
         if not ok:
